@@ -323,3 +323,34 @@ class zero_current_sources:
             'one branch per branch, same reference': len(result.branches) == len(branches) and result.node_zero_label == zero,
             'branch i: same place, current zeroed, admittance kept, non-sources untouched': forall(indices(branches), lambda i: zeroed(result.branches[i], branches[i])),
         }
+
+
+# ---- label -> matrix index maps for networks of any length (C03: the only place where label ORDER enters the analysis)
+
+from CircuitCalculator.Network.NodalAnalysis import label_mapping as lm
+
+
+@contract('CircuitCalculator.Network.NodalAnalysis.label_mapping.alphabetic_node_mapper', props=['C03', 'C01'], name='alphabetic_node_mapper_any_length')
+class node_mapper:
+    """Every node except the reference gets an index in [0, N); the map is strictly monotone in the label (hence one-to-one), so
+    renaming nodes permutes indices consistently and nothing else."""
+    def inputs(g):
+        return dict(branches=g.list('b', any_branch, min_len=1), zero=g.label('zero'), a=g.label('qa'), b=g.label('qb'))
+
+    def requires(branches, zero, a, b):
+        return valid(branches, zero)
+
+    def call(f, branches, zero, a, b):
+        m = f(Network(branches, zero))
+        return (m, a in m.keys, b in m.keys, zero in m.keys)
+
+    def ensures(result, branches, zero, a, b):
+        m, has_a, has_b, has_zero = result
+        is_node_a = exists(branches, lambda x: x.node1 == a or x.node2 == a)
+        is_node_b = exists(branches, lambda x: x.node1 == b or x.node2 == b)
+        return {
+            'the reference node has no index': not has_zero,
+            'exactly the other nodes are mapped': iff(has_a, is_node_a and a != zero),
+            'indices in range': implies(has_a, lambda: 0 <= m[a] and m[a] < m.N),
+            'strictly monotone in the label': implies(has_a and has_b and a < b, lambda: m[a] < m[b]),
+        }
